@@ -1382,6 +1382,17 @@ def oracle_c11(ctx, focus):
                     reqs += ["occ\t%s\t%s\t%s" % (lang, th, esc(t)), "occ\t%s\t%s\t%s" % (lang, th, esc(r)),
                              "val\t%s\t%s" % (lang, esc(t)), "val\t%s\t%s" % (lang, esc(r))]
                     meta.append((t, r))
+        # İ (U+0130) written where an I belongs inside a number word: `FİVE` and its lowercase `fi̇ve` are recasings of each
+        # other; neither is a number word (same numbers on both sides; spans may shift: that part is the known finding)
+        for ph in bank[:: max(1, len(bank) // 40)]:
+            if "i" in ph:
+                r = "x " + ph.upper().replace("I", "\u0130") + " y"
+                t = r.lower()
+                if r.upper().lower() == t:
+                    th = rng.choice(thrs)
+                    reqs += ["occ\t%s\t%s\t%s" % (lang, th, esc(t)), "occ\t%s\t%s\t%s" % (lang, th, esc(r)),
+                             "val\t%s\t%s" % (lang, esc(t)), "val\t%s\t%s" % (lang, esc(r))]
+                    meta.append((t, r))
         # letters whose lowercase has another UTF-8 length (or another number of chars) than the letter itself, in the
         # ordinary words around the numbers: the text and its lowercase must give the same occurrences
         exotic = ["\u0130zmir", "STRA\u1e9eE", "\u212a", "\u2126", "\u212b", "\u023a", "\u023e", "\u01c5", "GRO\u1e9e", "\u0130"]
@@ -1410,6 +1421,13 @@ def oracle_c11(ctx, focus):
                 # lowercase text has two more tokens per such letter. Same numbers, shifted spans: a finding of its own kind.
                 same_numbers = o1 is not None and o2 is not None and [o[2:] for o in o1] == [o[2:] for o in o2]
                 kind = "case-span-dotted-I" if ("\u0130" in r and same_numbers) else "case"
+                if kind == "case" and "\u0130" in r and o2 is not None and tk2 is not None:
+                    # İ inside a would-be number word: the capitalised token (lowercase `…i̇…`) is no number word, while the
+                    # lowercase text is cut at the combining dot and its pieces may be. Same root cause as the span finding —
+                    # as long as NO occurrence of the capitalised text covers a token containing İ.
+                    dotted = [j for j, x in enumerate(tk2) if "\u0130" in x[0]]
+                    if all(not (o[0] <= j < o[1]) for o in o2 for j in dotted):
+                        kind = "case-dotted-I-word"
                 failures.append(fail(r, "occurrences %s" % [(o[0], o[1], o[2]) for o in (o2 or [])], "as for %r: %s" % (t, [(o[0], o[1], o[2]) for o in (o1 or [])]),
                                      reqs[4 * i:4 * i + 2], lang=lang, what=kind))
             if outs[4 * i + 2] != outs[4 * i + 3]:
@@ -1818,6 +1836,12 @@ def oracle_c18(ctx, focus):
                 texts.append([num, link, "o" + sep if sep in punct and rng.chance(1, 2) else "o", "" if sep in punct and False else sep, sm])
                 texts.append([sm + ("," if rng.chance(1, 2) else ""), num, link, "o"])
                 texts.append([sm, sep, num, link, "o", sep, rng.choice(smalls)])
+    # whole spelled numbers written as ONE hyphenated token (the interpreter accepts them), short and very long
+    for ph in [p_ for p_ in phrase_bank(ctx, "en") if 1 < len(p_.split(" ")) < 12][:: 3]:
+        tok_ = ph.replace(" ", "-")
+        texts.append([tok_, "o"])
+        texts.append(["x", "o", tok_, "y"])
+        texts.append(["dial", "o", tok_, "now"])
     # hyphenated compounds of vocabulary words, the conjunction included (`hundred-and`: ends mid-number)
     comp = [x + "-and" for x in numw if x.isalpha()] + ["and-" + x for x in numw[:4]] + [x + "-" + y for x in numw[:5] for y in numw[5:9] if x.isalpha() and y.isalpha()]
     for c_ in comp:
